@@ -514,17 +514,23 @@ fn gen_c20(seed: u64, idx: usize, tier: Tier) -> C20Scenario {
     let mut rng = Rng::new(scenario_seed(seed, "C20", idx));
     let nt = rng.range(4, if tier == Tier::Thorough { 24 } else { 12 });
     let cmds: Vec<String> = if rng.chance(1, 3) { vec!["build".into(), "test".into()] } else { vec!["build".into()] };
+    // one scenario in twenty: a repository of 260-320 targets of which a handful run; the listener's filter names
+    // most of them (a filter line of 8-12 KiB)
+    let big_filter = rng.chance(1, 20);
+    let total = if big_filter { rng.range(260, 320) } else { nt };
     let mut targets = vec![];
     let mut cmd_files = vec![];
-    for i in 0..nt {
-        let path = format!("t{:02}", i);
-        for c in &cmds {
-            cmd_files.push(CmdFile { target: path.clone(), command: c.clone(), rel: WorldSpec::default_cmd_rel(&path, c), exec: true, broken: false });
+    for i in 0..total {
+        let path = if big_filter { format!("t{:03}-a-directory-name-of-some-length", i) } else { format!("t{:02}", i) };
+        if i < nt {
+            for c in &cmds {
+                cmd_files.push(CmdFile { target: path.clone(), command: c.clone(), rel: WorldSpec::default_cmd_rel(&path, c), exec: true, broken: false });
+            }
         }
         targets.push(TargetSpec { path, ..Default::default() });
     }
     let spec = WorldSpec { targets, cmd_files, files: vec![], sequences: vec![], max_retained_runs: 2, gitignore: vec![], git: false, lock_host: None, default_ports: 0 };
-    let mut script = RunScript::simple(RunOpts { commands: cmds.clone(), ..Default::default() });
+    let mut script = RunScript::simple(RunOpts { commands: cmds.clone(), targets: if big_filter { spec.targets[..nt].iter().map(|t| t.path.clone()).collect() } else { vec![] }, ..Default::default() });
     let per_task = rng.range(6, 20);
     // one scenario in eight: a long stall of the listener while more is written than the connection can
     // buffer (about 4 MB on loopback), so that writers really block behind it
@@ -549,6 +555,19 @@ fn gen_c20(seed: u64, idx: usize, tier: Tier) -> C20Scenario {
             .collect();
         script.behav.push(Behav { command: cf.command.clone(), target: cf.target.clone(), outs, code: 0, exit_pause_ms: 0, early_exit: false, hold_pipes_ms: 0 });
     }
+    // one scenario in twenty: one task prints a single newline-terminated line of 2.2-3.2 MiB
+    if !heavy_stall && rng.chance(1, 20) {
+        let bi = rng.below(script.behav.len());
+        let fd = if rng.chance(1, 2) { 1u8 } else { 2 };
+        let n = 2_300_000 + rng.below(1_000_000);
+        let mut s = format!("{}@{} fd{} giant ", script.behav[bi].command, script.behav[bi].target, fd);
+        while s.len() < n {
+            s.push_str("0123456789abcdefghijklmnopqrstuvwxyzABCDEFGHIJKLMNOPQRSTUVWXYZ-_");
+        }
+        s.push('\n');
+        let at = rng.below(script.behav[bi].outs.len() + 1);
+        script.behav[bi].outs.insert(at, OutStep { fd, hex: hex(s.as_bytes()), pause_ms: 0, close: false });
+    }
     script.strategy = Strategy::Uniform;
     script.sched_seed = rng.next_u64();
     script.flush_ms = Some(*rng.pick(&[5u64, 5, 10, 20]));
@@ -561,6 +580,10 @@ fn gen_c20(seed: u64, idx: usize, tier: Tier) -> C20Scenario {
         rng.shuffle(&mut ts);
         ts.truncate(rng.range(1, 3));
         lt = ts;
+    }
+    if big_filter {
+        // every target but the first one that runs and a few that do not
+        lt = spec.targets.iter().enumerate().filter(|(i, _)| *i != 0 && i % 17 != 3).map(|(_, t)| t.path.clone()).collect();
     }
     let mut lc = vec![];
     if cmds.len() > 1 && rng.chance(1, 2) {
